@@ -75,6 +75,7 @@ func runOne(t *testing.T, c *Case, work, sched *choice.Source, out *wproto.Out, 
 		out.SetAdd("distinct_nontrivial", wproto.Hash(b))
 	}
 	out.SampleKind(c.Kind, map[string]any{"case": id, "kind": c.Kind, "what": st.Desc, "sched_steps": st.Steps, "preemptions": st.Preempt, "tasks": st.Tasks}, 1, 12)
+	out.Remember(c)
 	out.Tick(32)
 }
 
